@@ -537,4 +537,64 @@ def match2dNested (parents : List Tri) (recipes : List Ref) : Scaling → Mat
       let kc := kidAt (kidsFrom 0 parents recipes) i
       if kc.1 = j then area2 kc.2 / area2 (triAt parents j) else 0
 
+/-! ### decidable input conditions (evaluated by the driver on every case)
+
+The theorems about `match_1d` assume that the cell lists tessellate one common segment, the
+constructor theorems that the `primary_secondary` map is well formed.  These are conditions on the
+INPUT; the functions below decide them, the driver reports them with every answer, and
+`tessPair_sound` / `wellFormedB_sound` turn a `true` into the hypotheses of the theorems. -/
+
+def insertCell (c : Cell) : List Cell → List Cell
+  | [] => [c]
+  | a :: l => if c.1 ≤ a.1 then c :: a :: l else a :: insertCell c l
+
+def sortCells : List Cell → List Cell
+  | [] => []
+  | c :: l => insertCell c (sortCells l)
+
+/-- consecutive cells share a node, every cell has positive length -/
+def chainOK : List Cell → Bool
+  | a :: b :: t => decide (a.1 < a.2) && decide (a.2 = b.1) && chainOK (b :: t)
+  | [a] => decide (a.1 < a.2)
+  | [] => true
+
+def lastHi : Cell → List Cell → Rat
+  | c, [] => c.2
+  | _, b :: t => lastHi b t
+
+/-- `(start, end)` of the segment covered by a non-empty sorted chain -/
+def segOf (cells : List Cell) : Rat × Rat :=
+  match sortCells cells with
+  | [] => (0, 0)
+  | c :: t => (c.1, lastHi c t)
+
+def isTess (cells : List Cell) : Bool := chainOK (sortCells cells)
+
+/-- both lists are non-empty tessellations of the same segment -/
+def tessPair (n o : List Cell) : Bool :=
+  isTess n && isTess o && !n.isEmpty && !o.isEmpty && decide (segOf n = segOf o)
+
+/-- decidable form of `WellFormedMap` -/
+def wellFormedB (nPrim nSec : Nat) (entries : List Ent) : Bool :=
+  entries.all (fun t => decide (t.2.2 = 1)) && entries.all (fun t => decide (t.2.1 < nPrim)) &&
+  decide ((entries.map (·.2.1)).Nodup) && entries.all (fun t => decide (t.1 < nSec)) &&
+  (List.range nSec).all (fun c => entries.any fun t => decide (t.1 = c))
+
+/-- decidable form of the hypotheses of `face_update_valid` for the mortar side on side `b` -/
+def faceHypsB (P : Mat) (nNew : Nat) (old new : List FaceRec) (b : Bool) : Bool :=
+  old.all (fun r => covered P r.idx) && decide ((old.map (·.idx)).Nodup) && decide ((new.map (·.idx)).Nodup) &&
+  old.all (fun r => decide (r.idx < P.c)) && new.all (fun r => decide (r.idx < nNew)) &&
+  tessPair ((old.filter (·.pos == b)).map (·.cell)) ((new.filter (·.pos == b)).map (·.cell))
+
+/-! ### vector-valued variants (`nd`), sign convention -/
+
+/-- `sparse_kronecker_product(A, nd)`: `A ⊗ I_nd` -/
+def Mat.kron (A : Mat) (nd : Nat) : Mat :=
+  table (A.r * nd) (A.c * nd) fun i j => if i % nd = j % nd then A.ent (i / nd) (j / nd) else 0
+
+/-- `sign_of_mortar_sides`: diagonal, `-1` on the cells of the first of two sides, `+1` elsewhere -/
+def signMat (sizes : List Nat) : Mat :=
+  let n := sizes.foldl (· + ·) 0
+  table n n fun i j => if i = j then (if sizes.length = 2 ∧ i < sizes.headD 0 then -1 else 1) else 0
+
 end PorepyVerif.C26
